@@ -419,6 +419,16 @@ def run_shard(prop, tier, seed, only=None, budget_scale=1.0, shrink_seconds=None
 def _shard_entry(args):
     prop, tier, seed, only, scale = args
     try:
+        # a runaway allocation inside the code under test must surface as MemoryError in the case (-> a violation with a
+        # replay), not as a killed worker
+        import resource
+        cap = int(os.environ.get("VERIF_MEM_GB", "12")) * (1 << 30)
+        soft, hard = resource.getrlimit(resource.RLIMIT_AS)
+        if hard == resource.RLIM_INFINITY or cap < hard:
+            resource.setrlimit(resource.RLIMIT_AS, (cap, hard))
+    except Exception:
+        pass
+    try:
         return run_shard(prop, tier, seed, only, scale)
     except BaseException as e:
         return {"stats": Stats().to_dict(), "violation": None,
@@ -486,9 +496,18 @@ def main_check(prop, tier, only=None, nshards=None, scale=1.0):
     if nshards == 1:
         results = [_shard_entry(jobs[0])]
     else:
+        # ProcessPoolExecutor (not mp.Pool): if a worker process dies the run ends with an error instead of hanging
+        import concurrent.futures as cf
         ctxmp = mp.get_context("fork")
-        with ctxmp.Pool(min(nshards, os.cpu_count() or 1)) as pool:
-            results = pool.map(_shard_entry, jobs, chunksize=1)
+        results = []
+        with cf.ProcessPoolExecutor(max_workers=min(nshards, os.cpu_count() or 1), mp_context=ctxmp) as ex:
+            futs = [ex.submit(_shard_entry, j) for j in jobs]
+            for j, f in zip(jobs, futs):
+                try:
+                    results.append(f.result())
+                except Exception as e:
+                    results.append({"stats": Stats().to_dict(), "violation": None,
+                                    "harness_error": f"worker process for shard seed {j[2]} died ({type(e).__name__}: {e}); no replay could be produced"})
     stats = Stats.merge([r["stats"] for r in results])
     herr = [r["harness_error"] for r in results if r["harness_error"]]
     viols = [r["violation"] for r in results if r["violation"]]
